@@ -88,7 +88,7 @@ CHECKS = {
     "C17": ("E-CODEC", "exploration",
             "structured round-trip generation at the limits + mutation fuzzing of valid encodings in child processes with a counting allocator",
             "For RegionMetadata slots, crafted regions files (opened with the real Database::open), vector headers, page-index entries, Stamp/Version/Format, every numeric Bytes impl, 16 byte-array widths, derive(Bytes) and base/raw change records for five element types: valid encodings of values at and around the limits (0, page+-1, 2^32+-1, 2^40, 2^63, u64::MAX-k; id lengths 0/1/1024/1025; non-UTF-8) must decode to exactly the encoded fields; truncations (change records: at every byte length), bit flips, every length field overwritten with limit values, and extensions must yield an error or a value that satisfies the type's rules. The loop runs in 16 child processes; a panic, a child that dies (allocation failure aborts cannot be caught), or a per-call peak allocation above 4 x input + 64 KiB (thread-local counting global allocator) is a violation; in crafted regions files exactly the valid slots must be present after open.",
-            "Native release build; overflow-on-arithmetic is only visible where it changes a result or panics (the dev-profile / Miri runs listed in DESIGN are separate).",
+            "Native release build (quick); overflow-on-arithmetic is only visible where it changes a result or panics; the thorough tier adds the ASan and Miri passes (DESIGN.md 12.7). Page payload decoding with a corrupt page *entry* is outside the statement's list and is not judged.",
             "DESIGN.md §4 C17"),
     "C18": ("E-PROC", "exploration",
             "holder-set model over totally ordered command histories across processes + byte-compare of the files around refused opens",
@@ -107,8 +107,8 @@ CHECKS = {
             "DESIGN.md §4 C10"),
     "C11": ("E-SCHED", "exploration",
             "controlled scheduler with a lock model (writer preference), lock-order graph, guided schedules for graph cycles, deadlock confirmation in a child process",
-            "A catalogue of 14 operations (writes through each placement path incl. file growth, write_at, truncate, rename, remove+create, create, Region::flush, Database::flush, compact, background compact + join, reader, retain) is run in all 105 pairs (depth-first, bounded pre-emptions) and in the triples that contain a file-growing operation (seeded random schedules). Every acquisition feeds a lock-order graph (held class/mode -> acquired class/mode per operation); for each cycle that needs a queued writer (reader/reader conflict under writer preference) the triple (holder A, holder B, writer W) is run under guided schedules that drive each thread to its critical request in all six orders. 'Unfinished threads and none enabled' under the lock model (a queued writer blocks new readers; queueing up is an explicit step) is a modelled deadlock; it is reported only if the same threads, released into the real blocking locks in a child process, make no progress for 3 s.",
-            "Finite catalogue on rawdb regions; bounded pre-emptions; the writer-preference rule is the assumption the property states; no thread keeps a reader across another call of its own.",
+            "A catalogue of 20 operations - 6 of them on vectors: compressed write on the fast raw-append path, the re-encode path and across many pages, scans through the mmap and the file-IO back-end, raw-vector write - and 14 on regions (writes through each placement path incl. file growth, write_at, truncate, rename, remove+create, create, Region::flush, Database::flush, compact, background compact + join, reader, retain) is run in all 105 pairs (depth-first, bounded pre-emptions) and in the triples that contain a file-growing operation (seeded random schedules). Every acquisition feeds a lock-order graph (held class/mode -> acquired class/mode per operation); for each cycle that needs a queued writer (reader/reader conflict under writer preference) the triple (holder A, holder B, writer W) is run under guided schedules that drive each thread to its critical request in all six orders. 'Unfinished threads and none enabled' under the lock model (a queued writer blocks new readers; queueing up is an explicit step) is a modelled deadlock; it is reported only if the same threads, released into the real blocking locks in a child process, make no progress for 3 s.",
+            "Finite catalogue; bounded pre-emptions; the writer-preference rule is the assumption the property states; no thread keeps a reader across another call of its own.",
             "DESIGN.md §4 C11"),
 }
 
@@ -122,6 +122,10 @@ def main():
         pid = p["id"]
         if pid in CHECKS:
             eng, cat, tech, text, note, ref = CHECKS[pid]
+            if pid in ("C01", "C03", "C07", "C08", "C17", "C20"):
+                tech += "; thorough tier: the same monitor once more, reduced, under AddressSanitizer (halt on first report)"
+            if pid in ("C07", "C17"):
+                tech += "; thorough tier: the pure codecs (no mapping needed) under Miri, 12 interpreter shards"
             checks.append({
                 "property_id": pid,
                 "quick_cmd": f"./check {pid} --tier quick",
